@@ -408,7 +408,7 @@ def build(ctx):
 
 
 def make_programs(ctx):
-    n_ar, n_pr, rep_er, budget = ctx.n((10, 8, 1, 500), (160, 140, 12, 600))
+    n_ar, n_pr, rep_er, budget = ctx.n((10, 8, 1, 500), (100, 80, 4, 600))
     progs = []
     idx = 0
     for i in range(n_ar):
